@@ -517,6 +517,7 @@ def run_impl(scn: Scn):
     def op_send(e):
         tid = rt.next_tid
         rt.next_tid += 1
+        cur_tid[0] = str(tid)
         return rt.sm.send(EVENTS[e] if e < len(EVENTS) else f"unk{e}", _tid=tid)
 
     def op_activate():
@@ -527,11 +528,13 @@ def run_impl(scn: Scn):
             await step(i, op, True)
 
     dead = [False]
+    cur_tid = ["-"]
 
     async def step(i, op, in_loop):
         if dead[0]:
             rt.lines.append(f"R {i} skipped")
             return
+        cur_tid[0] = "-"
         try:
             if op[0] in ("construct", "reconstruct"):
                 r = op_construct()
@@ -543,9 +546,9 @@ def run_impl(scn: Scn):
                 raise ValueError(op)
             if asyncio.iscoroutine(r):
                 r = await r
-            rt.lines.append(f"R {i} ok {rt.fmt_res(r)} cur={rt.seen()}")
+            rt.lines.append(f"R {i} ok {rt.fmt_res(r)} cur={rt.seen()} tid={cur_tid[0]}")
         except Exception as e:
-            rt.lines.append(f"R {i} err {rt.exc_s(e)} cur={rt.seen()}")
+            rt.lines.append(f"R {i} err {rt.exc_s(e)} cur={rt.seen()} tid={cur_tid[0]}")
             if op[0] in ("construct", "reconstruct"):
                 dead[0] = True
 
@@ -553,6 +556,7 @@ def run_impl(scn: Scn):
         if dead[0]:
             rt.lines.append(f"R {i} skipped")
             return
+        cur_tid[0] = "-"
         try:
             if op[0] in ("construct", "reconstruct"):
                 r = op_construct()
@@ -562,9 +566,9 @@ def run_impl(scn: Scn):
                 r = op_activate()
             else:
                 raise ValueError(op)
-            rt.lines.append(f"R {i} ok {rt.fmt_res(r)} cur={rt.seen()}")
+            rt.lines.append(f"R {i} ok {rt.fmt_res(r)} cur={rt.seen()} tid={cur_tid[0]}")
         except Exception as e:
-            rt.lines.append(f"R {i} err {rt.exc_s(e)} cur={rt.seen()}")
+            rt.lines.append(f"R {i} err {rt.exc_s(e)} cur={rt.seen()} tid={cur_tid[0]}")
             if op[0] in ("construct", "reconstruct"):
                 dead[0] = True
 
